@@ -87,6 +87,11 @@ def recorder(name, beh=None):
             if act[0] == 'drop_path':
                 # drops only the request for one path
                 return None if (request.path or b'').split(b'?')[0].endswith(act[1]) else request
+            if act[0] == 'reject_path':
+                # turns down only the request for one path
+                if (request.path or b'').split(b'?')[0].endswith(act[1][0]):
+                    raise HttpRequestRejected(status_code=act[1][1], reason=b'Rejected', body=act[1][2])
+                return request
             if act[0] == 'reject':
                 status, body = act[1]
                 raise HttpRequestRejected(status_code=status, reason=b'Rejected', body=body)
